@@ -185,12 +185,18 @@ def export_to_csv(
             rgb = color_dict[first_node]
             track_id_to_hex[track_id] = rgb_to_hex(rgb)
 
+        # with display names the columns are keyed by feature name, and the tracklet
+        # feature need not be called "track_id"
+        track_id_key = (
+            tracks.features.tracklet_key if use_display_names else "track_id"
+        )
+        track_id_column = column_map[cast(str, track_id_key)]
         df_colors = pd.DataFrame(
             list(track_id_to_hex.items()),  # convert dict to list of (track_id, hex)
-            columns=[column_map["track_id"], "Tracklet ID Color"],
+            columns=[track_id_column, "Tracklet ID Color"],
         )
 
-        df = pd.merge(df, df_colors, how="left", on=[column_map["track_id"]])
+        df = pd.merge(df, df_colors, how="left", on=[track_id_column])
 
     df.to_csv(outfile, index=False)
 
